@@ -3,7 +3,8 @@
 (* MerkleCache (run with a structural hash function, so roots and branches are terms).    *)
 (* Each record is one distinct answer:                                                    *)
 (*   kind "pure":  Merkle.branch_and_root(Leaves(n), i, length = natural + extra, tsc)    *)
-(*   kind "cache": MerkleCache.branch_and_root(n, i, tsc) in some reachable cache state   *)
+(*   kind "cache": MerkleCache.branch_and_root(n, i, tsc) in some reachable cache state;   *)
+(*                 src lists the leaf ids the source held for positions 1..n at that time  *)
 (*   kind "blen":  Merkle.branch_length / tree_depth at hash count 2^k + d                *)
 EXTENDS Merkle, SequencesExt, Json, IOUtils
 Results == JsonDeserialize(IOEnv.TRACE_FILE)
@@ -18,26 +19,27 @@ ExpectedLen(k, d) == IF d = 1 THEN k + 1 ELSE IF d = 0 THEN k ELSE IF k <= 1 THE
 
 AnswerOK ==
   R.kind \in {"pure", "cache"} =>
-    LET s == Leaves(R.n)
+    LET s == [k \in 1..R.n |-> Leaf(R.src[k])]
         depth == CeilLog2(R.n) + R.extra
     IN /\ R.ok
        /\ R.root = DefRoot(s, depth)
        /\ R.branch = DefBranch(s, R.i, depth, R.tsc)
 FoldsBack ==
   R.kind \in {"pure", "cache"} =>
-    IF R.tsc THEN FoldTsc(Leaf(R.i + 1), R.branch, R.i) = R.root
-    ELSE Fold(Leaf(R.i + 1), R.branch, R.i) = R.root
+    IF R.tsc THEN FoldTsc(Leaf(R.src[R.i + 1]), R.branch, R.i) = R.root
+    ELSE Fold(Leaf(R.src[R.i + 1]), R.branch, R.i) = R.root
 BranchLen ==
   /\ R.kind \in {"pure", "cache"} => Len(R.branch) = CeilLog2(R.n) + R.extra
   /\ R.kind = "blen" => R.bl = ExpectedLen(R.k, R.d) /\ R.td = R.bl + 1
 TscForm ==
   (R.kind \in {"pure", "cache"} /\ R.tsc) =>
-    LET classic == DefBranch(Leaves(R.n), R.i, CeilLog2(R.n) + R.extra, FALSE)
+    LET s == [j \in 1..R.n |-> Leaf(R.src[j])]
+        classic == DefBranch(s, R.i, CeilLog2(R.n) + R.extra, FALSE)
     IN /\ Len(R.branch) = Len(classic)
        /\ \A k \in 1..Len(classic) :
             \/ R.branch[k] = classic[k]
             \/ /\ R.branch[k] = Star
                \* a duplicated node: the sibling is the node on the path itself
-               /\ classic[k] = NodeAt(Leaves(R.n), k - 1, R.i \div Pow2(k - 1))
+               /\ classic[k] = NodeAt(s, k - 1, R.i \div Pow2(k - 1))
                /\ Xor1(R.i \div Pow2(k - 1)) > Count(R.n, k - 1) - 1
 =============================================================================
